@@ -144,6 +144,12 @@ func init() {
 					obs, mons := c09Run(s)
 					c.Emit(c02Scn{"C09", s}, obs, c02Remap(mons), "corpus")
 				}
+			case "crd":
+				var s c02CrdScn
+				if json.Unmarshal(w.Scn, &s) == nil {
+					obs, mons := c02CrdRun(s)
+					c.Emit(c02Scn{"crd", s}, obs, c02Remap(mons), "corpus")
+				}
 			}
 		}
 		for i := 0; i < c.N; i++ {
@@ -176,7 +182,12 @@ func init() {
 				cs := c06Gen(c.Rng, c.Tier)
 				co, cm := c06Run(&cs)
 				c.Emit(c02Scn{"C06", cs}, co, c02Remap(cm), "claim/"+c06Cls(&cs, co))
-			case 0, 1, 7:
+			case 7:
+				// an XRD defining its CRDs: definition / offered reconcilers, Apply(crd, MustBeControllableBy(xrd))
+				ds := c02CrdGen(c.Rng)
+				do, dm := c02CrdRun(ds)
+				c.Emit(c02Scn{"crd", ds}, do, c02Remap(dm), "crd/"+c02CrdCls(ds, do))
+			case 0, 1:
 				s := c02GenXW(c.Rng)
 				obs, mons := c02RunXW(&s)
 				nf := 0
@@ -210,6 +221,8 @@ func c02Remap(mons []Mon) []Mon {
 			out = append(out, Mon{Sig: "C02:rbac-" + m.Sig[4:], Why: m.Why})
 		case "C06:hijack":
 			out = append(out, Mon{Sig: "C02:claim-hijack", Why: m.Why})
+		case "C02:crd-foreign-modified", "C02:crd-foreign-deleted", "C02:crd-foreign-adopted", "C02:crd-write-to-foreign", "C02:crd-conflict-not-surfaced", "C02:panic":
+			out = append(out, m)
 		case "C09:panic", "C14:panic", "C16:panic", "C18:panic", "C06:panic":
 			out = append(out, Mon{Sig: "C02:panic", Why: m.Why})
 		}
